@@ -214,14 +214,20 @@ def stateless(prog, rep):
     """a query over one window must not see what a query over another window left behind"""
     rep.rule("STATELESS", "nothing reachable from query() writes a module-level container (effect analysis, E2): every run starts from create_namespace() and leaves nothing behind, so the answer for a window depends only on the store and the program text (the function registry is filled at import time, not by queries)")
     fi = prog.func("query", "aw_query.query2")
-    an = Analysis(prog, fi)
-    an.run()
-    ws = [w for w in an.writes if w.node[0] == "S"]
+    roots = [fi] + [f for f in prog.registry() if f is not fi]
+    ws, total = [], 0
+    for r in roots:
+        an = Analysis(prog, r)
+        an.run()
+        total += len(an.writes)
+        ws += [(r, w) for w in an.writes if w.node[0] == "S"]
+    rep.unit("functions", f"STATELESS roots: query() and {len(roots) - 1} registered built-ins")
+    rep.floor("STATELESS roots", len(roots), 18)
     if ws:
-        w = ws[0]
-        rep.violation("STATELESS", fi.short, f"write to {'.'.join(str(x) for x in w.node[1])}", f"`{w.how}` at {w.loc} (in {w.fn}) stores into module-level state during a query: a later run of the same query over another window reuses what the earlier run left there (parsed statements carry the variable values and window of the run that parsed them), so its answer is no longer the direct read over its own window", w.loc, found=[repr(x) for x in ws[:4]])
+        r, w = ws[0]
+        rep.violation("STATELESS", r.short, f"write to {'.'.join(str(x) for x in w.node[1])}", f"`{w.how}` at {w.loc} (in {w.fn}) stores into module-level state during a query: a later evaluation (the same call further down the program, or a later query) is answered from what an earlier one left behind instead of from its own arguments, window and the store", w.loc)
     else:
-        rep.ok("STATELESS", fi.short, "module-level state", f"{len(an.writes)} writes analysed, none below a module-level container", fi.loc())
+        rep.ok("STATELESS", fi.short, "module-level state", f"{total} writes analysed from {len(roots)} roots, none below a module-level container", fi.loc())
 
 
 def check(prog, rep):
@@ -247,6 +253,7 @@ def check(prog, rep):
 
 
 VARIANTS = [
+    {"name": "B compiled category rules memoised in a module-level dict", "edits": [(Q, "@q2_function(categorize)\n@q2_typecheck\ndef q2_categorize(events: list, classes: list):\n    classes = [(_cls, Rule(rule_dict)) for _cls, rule_dict in classes]\n", "_rule_cache: dict = {}\n\n\ndef _compile_rule(rule_dict):\n    key = rule_dict.get(\"regex\")\n    if key not in _rule_cache:\n        _rule_cache[key] = Rule(rule_dict)\n    return _rule_cache[key]\n\n\n@q2_function(categorize)\n@q2_typecheck\ndef q2_categorize(events: list, classes: list):\n    classes = [(_cls, _compile_rule(rule_dict)) for _cls, rule_dict in classes]\n")], "expect": "STATELESS"},
     ("B query function inserts", Q, "    return datastore[bucketname].get(starttime=starttime, endtime=endtime)\n", "    evs = datastore[bucketname].get(starttime=starttime, endtime=endtime)\n    if len(evs) > 100000:\n        datastore[bucketname].insert(evs[0])\n    return evs\n", ["NO-WRITE"]),
     ("B query function deletes through the storage", Q, "    _verify_bucket_exists(datastore, bucketname)\n    starttime = iso8601.parse_date(namespace[\"STARTTIME\"])\n    endtime = iso8601.parse_date(namespace[\"ENDTIME\"])\n", "    _verify_bucket_exists(datastore, bucketname)\n    datastore.storage_strategy.delete(bucketname, -1)\n    starttime = iso8601.parse_date(namespace[\"STARTTIME\"])\n    endtime = iso8601.parse_date(namespace[\"ENDTIME\"])\n", "NO-WRITE"),
     ("B verify helper updates metadata", Q, "    if bucketname in datastore.buckets():\n        return\n", "    if bucketname in datastore.buckets():\n        datastore.update_bucket(bucketname, name=bucketname)\n        return\n", "NO-WRITE"),
